@@ -200,8 +200,9 @@ def counter_protocol(ctx, p):
             if why is None and t['k'] == 'switch' and d and d[2] == 'assign' and d[3]['r']['k'] == 'discr':
                 src = d[3]['r']['p'][0]
                 sd = cr.defs().get(src, [])
-                if len(sd) == 1 and sd[0][2] == 'call' and 'Option<' in sd[0][3].get('rty', '') and 0 in t.get('vals', []):
-                    none_t = t['ts'][t['vals'].index(0)]
+                if len(sd) == 1 and sd[0][2] == 'call' and 'Option<' in sd[0][3].get('rty', '') and (0 in t.get('vals', []) or t.get('vals') == [1]):
+                    # (`let Some(x) = f() else { .. }` tests for Some and leaves None to the otherwise edge)
+                    none_t = t['ts'][t['vals'].index(0)] if 0 in t['vals'] else t['ts'][-1]
                     hn = [x for x in call_names(sd[0][3]) if x in F.bodies]
                     fed = any(any(re.search(r'read_rc$', c) for c in backward_slice(cr, [op_place(a)]).calls) for a in sd[0][3]['a'] if op_place(a) is not None)
                     if hn and fed and none_t in yes:
